@@ -33,6 +33,7 @@ type frame struct {
 	phitemps  []Value
 	symVisits map[ssa.Instruction]int
 	thread    *Thread
+	skipPhis  bool
 }
 
 type deferred struct {
@@ -96,6 +97,7 @@ type PathRun struct {
 	steps    int64
 	asserts  int
 	asserted int
+	cuts     int
 }
 
 type Interp struct {
@@ -140,10 +142,14 @@ type Interp struct {
 	pendingCrash interface{}
 	nowOverride  *Term
 	fs           *vfsState
+	spec         int
+	allocLimit   int64
+	known        map[*Term]uint64
 }
 
 type Stats struct {
-	Steps int64
+	Steps  int64
+	Merges int64
 }
 
 func (in *Interp) unsupported(format string, a ...interface{}) {
@@ -498,6 +504,14 @@ func (in *Interp) runFrame(fr *frame) {
 }
 
 func (in *Interp) executePhis(fr *frame) []ssa.Instruction {
+	if fr.skipPhis {
+		fr.skipPhis = false
+		for i, instr := range fr.block.Instrs {
+			if _, ok := instr.(*ssa.Phi); !ok {
+				return fr.block.Instrs[i:]
+			}
+		}
+	}
 	firstNonPhi := -1
 	for i, instr := range fr.block.Instrs {
 		if _, ok := instr.(*ssa.Phi); !ok {
@@ -618,6 +632,9 @@ func (in *Interp) visitInstr(fr *frame, instr ssa.Instruction) continuation {
 		in.store(fr.get(instr.Addr), fr.get(instr.Val))
 	case *ssa.If:
 		cond := fr.get(instr.Cond).(*Term)
+		if !cond.IsConst() && in.spec == 0 && in.tryMerge(fr, instr, cond) {
+			return kJump
+		}
 		succ := 1
 		if in.branchAt(fr, instr, cond) {
 			succ = 0
